@@ -210,11 +210,29 @@ def c18(tier, replay=None):
     for s, dn in rb:
         body = {"bare": s, "sq": "'%s'" % s, "dq": '"%s"' % s, "tsq": "'''%s'''" % s, "tdq": '"""%s"""' % s}.get(dn)
         if body is None:
-            continue       # text fields are the writer's protocol (C02)
+            continue       # the recommended text field: presented below, as every string is
         for lead in ("_v ", "_v\n", "_v\n ", "_v  \t"):
             if dn == "bare" and s.startswith(";") and lead.endswith("\n"):
                 continue
             docs.append(("#\\#CIF_2.0\ndata_p\n" + lead + body + "\n", (s, dn, lead)))
+    # every string as a text field, in each form of the CIF 2.0 protocol that can carry it: plain (no newline-semicolon inside,
+    # first line not looking like a protocol line), prefixed (the prefix on every line, empty ones included), folded (every
+    # line continued onto an empty one) and prefixed + folded
+    P = "> "
+    for s in sorted({s for s, dn in rb}):
+        if "\r" in s or len(s) > 300:
+            continue
+        lines = s.split("\n")
+        has_delim = "\n;" in s
+        forms = []
+        if not has_delim and not lines[0].rstrip(" \t").endswith("\\"):
+            forms.append(("text field", ";" + s + "\n;"))
+        forms.append(("prefixed text field", ";" + P + "\\\n" + "\n".join(P + l for l in lines) + "\n;"))
+        if not has_delim and not s.startswith(";"):
+            forms.append(("folded text field", ";\\\n" + "\n".join(l + "\\\n" for l in lines) + "\n;"))
+        forms.append(("prefixed and folded text field", ";" + P + "\\\\\n" + "\n".join(P + l + "\\\n" + P for l in lines) + "\n;"))
+        for what, body in forms:
+            docs.append(("#\\#CIF_2.0\ndata_p\n_v\n" + body + "\n", (s, what, "_v\n")))
     from check_doc import parse_docs, observed_content
     nrb = 0
     for key, po, pr, leak in parse_docs(binary, docs):
@@ -226,11 +244,11 @@ def c18(tier, replay=None):
         want = {"k": "unk"} if (s == "?" and dn == "bare") else {"k": "na"} if (s == "." and dn == "bare") else {"k": "char", "t": s, "q": 0 if dn == "bare" else 1}
         errs = [e for e in po.get("log", []) if e.get("cb") == "error"]
         if errs or got != want:
-            rep.violation("read-back %s" % dn, "string %r presented as %s after %r reads back as %s (errors %s)" % (s, dn, lead, got, [e["code"] for e in errs][:3]), {"string": s, "delimiter": dn})
+            rep.violation("read-back %s" % dn, "string %r presented as %s after %r reads back as %s (errors %s)" % (s, dn, lead, got, [e["code"] for e in errs][:3]), {"string": s, "delimiter": dn, "document": next((d for d, k_ in docs if k_ == key), None)})
     rep.samples = [{"string": s, "stats": st_, "admissible": sorted(adm)} for s, st_, adm, res, unq in items[50:53]]
     log("[C18] strings %d ok %d, argument sets %d, read-back documents %d" % (total, nok, len(argsets), nrb))
     return rep.finish({"states": st["distinct"], "transitions": st["generated"], "traces_validated_against_impl": nok, "strings": total, "argument_sets": len(argsets),
                        "readback_documents": nrb, "alphabet": sigma, "max_length": n, "exhaustive": True,
                        "explanation": "every string over the alphabet up to the length bound (plus curated long / reserved-word strings) x allow_unquoted x allow_triple_quoted x limits"},
-                      ["text-field recommendations are exercised through the writer (C02), not re-encoded here",
+                      ["text fields are presented by the check itself in the four forms of the CIF 2.0 protocol (plain, prefixed, folded, both); the writer's own choice of form is C02's subject",
                        "the trailing-blank flag is required for blanks before a line terminator; blanks at the very end of the string are accepted either way"])
